@@ -164,7 +164,24 @@ func (p Poly) Mul(q Poly) Poly {
 	for _, t := range p.T {
 		for _, u := range q.T {
 			c := new(big.Rat).Mul(t.C, u.C)
-			nt := &Term{C: c, M: mulMono(t.M, u.M)}
+			mm := mulMono(t.M, u.M)
+			// (P)^k with k > 0 is the polynomial P^k again
+			expand := -1
+			for i, f := range mm {
+				if f.A.Kind == "inv" && f.E > 0 && len(f.A.Args) == 1 {
+					expand = i
+					break
+				}
+			}
+			if expand >= 0 {
+				rest := append(append([]Factor{}, mm[:expand]...), mm[expand+1:]...)
+				base := PZero()
+				bt := &Term{C: c, M: rest}
+				base.T[bt.monoKey()] = bt
+				r = r.Add(base.Mul(mm[expand].A.Args[0].PowInt(mm[expand].E)))
+				continue
+			}
+			nt := &Term{C: c, M: mm}
 			k := nt.monoKey()
 			if o, ok := r.T[k]; ok {
 				c.Add(c, o.C)
